@@ -43,7 +43,23 @@ func e1(profile string, quick, thorough int) part {
 	return part{Engine: "E1", Pkg: "world", Profile: profile, QuickRuns: quick, QuickBudgetS: 40, ThoroughRuns: thorough, ThoroughBudgetS: 900}
 }
 
+func e1prop(profile string, quick, thorough int, rule string, expect ...string) prop {
+	return prop{Parts: []part{e1(profile, quick, thorough)}, Rule: rule, Assumptions: e1Assumptions, Components: e1Components, ExpectCounters: expect}
+}
+
+const e1Case = "one case = one seeded run of a 2-4 node Sia network (swarm-drawn network parameters, eras, fault kinds, workload mix); distinct = distinct SHA-256 of the event log; "
+
 var props = map[string]prop{
+	"C05": e1prop("C05", 240, 6000, e1Case+"accumulator-stress profile (many outputs, 2-4 light clients, forced partitions and stale mining). After every applied/reverted block: accumulator leaf count and roots = naive forest over all leaves ever added; every stored and every light-client proof verifies and equals the forest path; leaf indices equal the forest's. Non-trivial = light clients verified at least one proof after an update.",
+		"reach.reorg", "reach.light-revert", "reach.light-spent-verified", "probe.light.verified"),
+	"C06": e1prop("C06", 240, 6000, e1Case+"reorg-heavy profile. On every revert: RevertBlock's diffs are the reverse of ApplyBlock's; the store (ids, fields, leaf indices, proofs) equals its digest from before the block was applied and the reference ledger of the parent; every element verifies against the parent state; on re-apply state encoding and diffs are byte-identical to the first apply. Non-trivial = at least one revert with non-empty diffs.",
+		"reach.reorg", "reach.revert-nonempty", "reach.reapply", "reach.reorg.depth3"),
+	"C09": e1prop("C09", 200, 5000, e1Case+"at every validated block: inputs (state, block incl. every proof, supplement) byte-equal before/after ValidateBlock and ApplyBlock; repeated calls agree; decode(encode(b)) copy agrees in verdict, state bytes and diffs; per-transaction MidState validation agrees with ValidateBlock; updates and DeepCopy share no memory with inputs; different nodes reaching the same block hold byte-identical state and diffs. (Concurrent callers: engine E3, added separately.)",
+		"probe.c09.validate", "probe.c09.apply", "probe.c09.deepcopy"),
+	"C10": e1prop("C10", 240, 6000, e1Case+"corruption-heavy profile: encoded blocks, block batches, locators and transaction sets are bit-flipped, truncated and spliced in transit and fed to the real decoders and, when they still decode, to ValidateBlock / ValidateTransaction / ValidateV2Transaction on nodes in reachable states; every call runs under recover; accepted blocks are applied and (through reorgs) reverted. Non-trivial = at least one corrupted message reached a decoder.",
+		"fault.bitflip", "fault.truncate", "fault.splice", "node.undecodable"),
+	"C20": e1prop("C20", 240, 6000, e1Case+"2-4 light clients per run consume their node's ApplyUpdate/RevertUpdate stream after a JSON round trip of every update and must end with proofs that verify against the state exactly like in-memory clients (every tracked element, incl. spent ones and contracts, across reorgs).",
+		"probe.light.json-update", "reach.light-revert"),
 	"C01": {
 		Parts:       []part{e1("C01", 240, 6000)},
 		Rule:        "one case = one seeded run of a 2-4 node Sia network (swarm-drawn network parameters, eras, fault kinds, workload mix); after every applied and every reverted block at every node the reference ledger (math/big, fed by block contents) is compared with the store built from the library's diffs, and the supply equation, miner payout, siafund count and claim amounts are checked. Non-trivial = the run applied blocks with transactions and the oracle ran; distinct = distinct SHA-256 of the event log.",
